@@ -73,7 +73,13 @@ pub enum Step {
     AllowOverdraw(bool),
     AllowOob(bool),
     /// compare with a second display: clone, optionally modified in one cell
-    CompareClone { modify: Option<([i32; 2], Option<u32>)> },
+    /// `flip_flags`: the clone's check flags are toggled before comparing (flags are not part of equality)
+    CompareClone { modify: Option<([i32; 2], Option<u32>)>, flip_flags: bool },
+    /// continue the history on a clone of the display (a clone must behave like the original,
+    /// check flags included)
+    ContinueOnClone,
+    /// `set_pixels(points, colour)` with in-range points
+    SetPixels { pts: Vec<[i32; 2]>, c: Option<u32> },
     /// Debug -> parse -> from_pattern
     DebugRoundTrip,
     /// from_pattern of a seeded pattern (rows of equal width)
@@ -117,6 +123,7 @@ const PROBES: &[&str] = &[
     "set_pixel_none",
     "far_out_of_bounds_point",
     "point_on_last_row_or_column",
+    "continued_on_clone",
 ];
 
 const FAULTS: &[&str] = &["oob_request", "overdraw_request", "expected_panic"];
@@ -243,13 +250,19 @@ fn step_json(s: &Step) -> J {
         ),
         Step::AllowOverdraw(b) => J::obj().set("set_allow_overdraw", J::Bool(*b)),
         Step::AllowOob(b) => J::obj().set("set_allow_out_of_bounds_drawing", J::Bool(*b)),
-        Step::CompareClone { modify } => J::obj().set(
-            "compare_with_clone",
-            match modify {
-                None => J::s("unmodified"),
-                Some((p, c)) => J::Arr(vec![J::Int(p[0] as i64), J::Int(p[1] as i64), c.map(|c| J::Int(c as i64)).unwrap_or(J::Null)]),
-            },
-        ),
+        Step::CompareClone { modify, flip_flags } => J::obj()
+            .set(
+                "compare_with_clone",
+                match modify {
+                    None => J::s("unmodified"),
+                    Some((p, c)) => J::Arr(vec![J::Int(p[0] as i64), J::Int(p[1] as i64), c.map(|c| J::Int(c as i64)).unwrap_or(J::Null)]),
+                },
+            )
+            .set("clone_flags_toggled", J::Bool(*flip_flags)),
+        Step::ContinueOnClone => J::s("continue_on_clone"),
+        Step::SetPixels { pts, c } => J::obj()
+            .set("set_pixels", J::Arr(pts.iter().map(|p| J::ints(&p[..])).collect()))
+            .set("colour", c.map(|c| J::Int(c as i64)).unwrap_or(J::Null)),
         Step::DebugRoundTrip => J::s("debug_round_trip"),
         Step::FromPattern { rows } => J::obj().set("from_pattern", J::Arr(rows.iter().map(|r| J::s(r.clone())).collect())),
     }
@@ -522,8 +535,28 @@ fn run_typed<C: SimColor + ColorMapping>(sc: &Scenario, opts: &Opts) -> RunOut {
                         out.probes |= probe("flag_changed_mid_history");
                     }
                 }
-                Step::CompareClone { modify } => {
+                Step::ContinueOnClone => {
+                    out.probes |= probe("continued_on_clone");
+                    match guarded(|| display.clone()) {
+                        Ok(c) => display = c,
+                        Err(e) => viol = Some(mk(si, "unexpected_panic", format!("clone panicked: {}", e))),
+                    }
+                }
+                Step::SetPixels { pts, c } => {
+                    for p in pts {
+                        model.cells[p[1] as usize * N + p[0] as usize] = *c;
+                    }
+                    let r = guarded(|| display.set_pixels(pts.iter().map(|p| Point::new(p[0], p[1])), c.map(C::from_u32)));
+                    if let Err(e) = r {
+                        viol = Some(mk(si, "unexpected_panic", format!("set_pixels on in-range points panicked: {}", e)));
+                    }
+                }
+                Step::CompareClone { modify, flip_flags } => {
                     let mut other = display.clone();
+                    if *flip_flags {
+                        other.set_allow_overdraw(!model.allow_overdraw);
+                        other.set_allow_out_of_bounds_drawing(!model.allow_oob);
+                    }
                     let mut other_cells = model.cells.clone();
                     if let Some((p, c)) = modify {
                         if let Err(e) = guarded(|| other.set_pixel(Point::new(p[0], p[1]), c.map(C::from_u32))) {
@@ -667,7 +700,7 @@ fn run_typed<C: SimColor + ColorMapping>(sc: &Scenario, opts: &Opts) -> RunOut {
                 }
                 _ => {}
             }
-            if viol.is_none() && matches!(step, Step::SetPixel { .. }) {
+            if viol.is_none() && matches!(step, Step::SetPixel { .. } | Step::SetPixels { .. } | Step::ContinueOnClone) {
                 let cells = match guarded(|| read_cells(&display)) {
                     Ok(c) => c,
                     Err(e) => {
@@ -732,6 +765,8 @@ fn run_typed<C: SimColor + ColorMapping>(sc: &Scenario, opts: &Opts) -> RunOut {
             Step::AllowOverdraw(b) => 6 + *b as u32 * 100,
             Step::AllowOob(b) => 7 + *b as u32 * 100,
             Step::CompareClone { .. } => 8,
+            Step::ContinueOnClone => 41,
+            Step::SetPixels { .. } => 42,
             Step::DebugRoundTrip => 9,
             Step::FromPattern { .. } => 40,
         });
@@ -812,7 +847,7 @@ impl Property for C20 {
         "history_steps_checked"
     }
     fn rule(&self) -> &'static str {
-        "one seeded history = MockDisplay<C> for one of 6 colour types + 1..10 steps: draw_iter batches, draw_pixel, fill_solid / fill_contiguous / clear (trait defaults), drawables, set_pixel(Some/None), flag changes (all four combinations, also mid-history), comparison with a (modified) clone via == and diff, Debug -> from_pattern round trip, from_pattern of a seeded pattern; points inside, on the last row/column, just outside, negative and far outside; pixels repeated within a batch and across batches. After every step: panic observed iff predicted, get_pixel on all 4096 cells, affected_area == tight box. distinct = 64-bit hash of the decoded history; non-trivial = at least one cell written by a drawing operation"
+        "one seeded history = MockDisplay<C> for one of 6 colour types + 1..10 steps: draw_iter batches, draw_pixel, fill_solid / fill_contiguous / clear (trait defaults), drawables, set_pixel / set_pixels (Some/None), continuing on a clone, flag changes (all four combinations, also mid-history), comparison with a (modified) clone via == and diff, Debug -> from_pattern round trip, from_pattern of a seeded pattern; points inside, on the last row/column, just outside, negative and far outside; pixels repeated within a batch and across batches. After every step: panic observed iff predicted, get_pixel on all 4096 cells, affected_area == tight box. distinct = 64-bit hash of the decoded history; non-trivial = at least one cell written by a drawing operation"
     }
     fn assumptions(&self) -> Vec<&'static str> {
         vec![
@@ -828,7 +863,15 @@ impl Property for C20 {
         let n = 1 + src.draw(if crate::prop::deep() { 20 } else { 10 });
         let mut steps = Vec::new();
         for si in 0..n {
-            let s = match src.draw(16) {
+            let s = match src.draw(18) {
+                16 => Step::ContinueOnClone,
+                17 => {
+                    let k = 1 + src.draw(4);
+                    Step::SetPixels {
+                        pts: (0..k).map(|_| gen_in_pt(src)).collect(),
+                        c: if src.draw(3) == 0 { None } else { Some(gen_col(src, kind)) },
+                    }
+                }
                 0 | 1 | 2 => {
                     let k = src.draw(12);
                     let mut px: Vec<(i32, i32, u32)> = Vec::new();
@@ -896,6 +939,7 @@ impl Property for C20 {
                     } else {
                         Some((gen_in_pt(src), if src.draw(3) == 0 { None } else { Some(gen_col(src, kind)) }))
                     },
+                    flip_flags: src.draw(3) == 2,
                 },
                 14 => Step::DebugRoundTrip,
                 _ => {
